@@ -101,8 +101,9 @@ def _table(chk, thorough):
         kinds[err] = kinds.get(err, 0) + 1
         if thorough:
           bindings = cr.BINDINGS
-        else:        # quick: the two functor paths on every pair, the six others in rotation
-          bindings = ('functor', 'functor-late', cr.BINDINGS[2 + (i + j // 2) % 6])
+        else:        # quick: the call-time path on every cell, the seven other bindings in rotation
+          rot = ('functor',) + cr.BINDINGS[2:]
+          bindings = ('functor-late', rot[(i + j // 2) % len(rot)])
         for b in bindings:
           kind, val, rep = cr.run_binding(gen, b, c['nargs'], c['kw'], kbase, pal)
           chk.evaluations += 1
@@ -158,7 +159,7 @@ def _annotated(chk, thorough, data):
     dvs = cr.DEFAULT_VARIANTS if thorough else (cr.DEFAULT_VARIANTS[i % 3],)
     for dv in dvs:
       for t, (p, mode, want) in enumerate(annot[i]):
-        akinds = cr.ANNOTATE_KINDS if thorough else (cr.ANNOTATE_KINDS[(i + t) % nk],)
+        akinds = (cr.ANNOTATE_KINDS[(i + t + cr.DEFAULT_VARIANTS.index(dv)) % nk],)
         for akind in akinds:
           kind, cls, target = cr.annotate(sig, dv, p, mode, akind)
           chk.evaluations += 1
@@ -214,7 +215,7 @@ def _annotated(chk, thorough, data):
 
 def _lifecycle(chk, thorough):
   workers = min(8, tlc.DEFAULT_WORKERS)
-  total, depth = (9600, 12) if thorough else (800, 10)
+  total, depth = (9600, 12) if thorough else (640, 10)
   behaviours, r = tlc.simulate('Callable', 'C18_sim.cfg', num=max(1, total // workers), depth=depth,
                                seed=chk.seed * 1000 + 1, workers=workers, timeout=1500)
   chk.add_tlc(r, count_states=False)
